@@ -42,6 +42,27 @@ func verifStartQuery(v *verifSrv, ctx context.Context, dst *net.UDPAddr, q strin
 
 func (p *verifPending) outstanding() int { return p.v.s.Stats().OutstandingTransactions }
 
+// verifGenuineReply: the queried node's answer - a response, or a KRPC error (which has no "r").
+func verifGenuineReply(v *verifSrv, t string) krpc.Msg {
+	if verifNondetBool() {
+		return krpc.Msg{Y: "e", T: t, E: &krpc.Error{Code: 203, Msg: "nope"}}
+	}
+	return verifReplyMsg(v, t)
+}
+
+// verifSameReply: the reply a query returned is the datagram that answered it, and nothing else.
+func verifSameReply(got, sent krpc.Msg, label string) {
+	ok := got.Y == sent.Y && got.T == sent.T && got.Q == "" && got.A == nil && !got.ReadOnly
+	ok = ok && (got.R == nil) == (sent.R == nil) && (got.E == nil) == (sent.E == nil)
+	if ok && got.R != nil {
+		ok = got.R.ID == sent.R.ID && len(got.R.Nodes) == len(sent.R.Nodes) && got.R.Token == nil
+	}
+	if ok && got.E != nil {
+		ok = got.E.Code == sent.E.Code && got.E.Msg == sent.E.Msg
+	}
+	verifAssert(ok, label)
+}
+
 func verifReplyMsg(v *verifSrv, t string) krpc.Msg {
 	return krpc.Msg{Y: "r", T: t, R: &krpc.Return{ID: verifIDInBucket(v.id, 3)}}
 }
@@ -101,7 +122,11 @@ func VerifC07_OneQuery() {
 		}
 		verifReach("rejected")
 		// the genuine reply still completes it
-		v.sock.deliver(verifEncode(verifReplyMsg(v, p.tid), 50), dst)
+		genuine := verifGenuineReply(v, p.tid)
+		v.sock.deliver(verifEncode(genuine, 50), dst)
+		if p.done {
+			verifSameReply(p.res.Reply, genuine, "C07: the query returns exactly the datagram that answered it (no field of an earlier datagram)")
+		}
 	}
 	verifAssert(p.done, "C07: the reply from the queried address with the query's id completes the query")
 	verifAssert(p.res.Err == nil && p.res.Reply.T == p.tid, "C07: the query returns that reply")
@@ -136,11 +161,16 @@ func VerifC07_TwoQueries() {
 		v.sock.deliver(verifEncode(verifReplyMsg(v, other.tid), 50), first.dst)
 		verifAssert(!p1.done && !p2.done, "C07: the right id from the wrong address completes nothing")
 	}
-	v.sock.deliver(verifEncode(verifReplyMsg(v, first.tid), 50), first.dst)
+	g1 := verifReplyMsg(v, first.tid)
+	g1.R.Nodes = krpc.CompactIPv4NodeInfo{{ID: verifIDInBucket(v.id, 1), Addr: krpc.NodeAddr{IP: net.IP{10, 9, 9, 9}, Port: 7}}}
+	v.sock.deliver(verifEncode(g1, 50), first.dst)
 	verifAssert(first.done && !other.done, "C07: a reply completes exactly the query it answers")
 	verifAssert(first.res.Reply.T == first.tid, "C07: ... with its own reply")
-	v.sock.deliver(verifEncode(verifReplyMsg(v, other.tid), 50), other.dst)
+	verifSameReply(first.res.Reply, g1, "C07: the first query returns exactly its own reply")
+	g2 := verifGenuineReply(v, other.tid)
+	v.sock.deliver(verifEncode(g2, 50), other.dst)
 	verifAssert(other.done && other.res.Reply.T == other.tid, "C07: the second reply completes the second query")
+	verifSameReply(other.res.Reply, g2, "C07: the second query returns exactly its own reply, nothing of the first one's")
 	verifAssert(p1.outstanding() == 0, "C14: no pending transaction is left")
 	verifReach("end")
 }
